@@ -29,16 +29,22 @@ def dec(fr):
     return s[:-k] + "." + s[-k:] if k else s + ".0"
 
 
-def csv_text(arrivals):
+def csv_text(arrivals, ids=None):
+    """one single-operator pipeline per arrival; the operator's baseline_cpu_seconds is the pipeline's index + 1 (a tag that survives whatever the ids are)"""
     rows = [HEADER]
     for i, a in enumerate(arrivals):
-        rows.append(f"p{i + 1},{a},BATCH_PIPELINE,op1,,1,const,,1\n")
+        rows.append(f"{ids[i] if ids else 'p' + str(i + 1)},{a},BATCH_PIPELINE,op1,,{i + 1},const,,1\n")
     return "".join(rows)
 
 
-def make_trace(arrivals, tps):
+def tag(p):
+    """index of a delivered pipeline (from the tag csv_text gave it)"""
+    return int(round(list(p.values)[0].get_segments()[0].baseline_cpu_seconds)) - 1
+
+
+def make_trace(arrivals, tps, ids=None):
     from eudoxia.workload.csv_io import CSVWorkloadReader
-    return CSVWorkloadReader(io.StringIO(csv_text(arrivals))).get_workload(tps)
+    return CSVWorkloadReader(io.StringIO(csv_text(arrivals, ids))).get_workload(tps)
 
 
 def delivered_tick(astr, tps, expect):
@@ -143,10 +149,15 @@ def multi(ctx, drv):
             ctx.sit("replays_with_near_equal_arrivals_across_a_boundary")
         arrs = [dec(x) for x in fr]
         m = drv.send(f"replay {tps} {nticks} " + ",".join(f"{x.numerator}/{x.denominator}" for x in fr))
-        wl = make_trace(arrs, tps)
+        ids = None
+        if rng.random() < 0.25 and len(arrs) >= 3:
+            # pipeline ids re-used in non-adjacent blocks (two recordings concatenated): rows are grouped by adjacency, every block is a pipeline of its own
+            ids = [f"p{(i % 2) + 1}" for i in range(len(arrs))]
+            ctx.sit("replays_with_reused_pipeline_ids")
+        wl = make_trace(arrs, tps, ids)
         out = []
         for _ in range(nticks):
-            out.append([int(p.pipeline_id[1:]) - 1 for p in wl.run_one_tick()])
+            out.append([tag(p) for p in wl.run_one_tick()])
         ctx.coverage["evaluations"] += 1
         ctx.sit("replays")
         if any(len(x) >= 2 for x in m["out"]):
